@@ -548,9 +548,13 @@ impl Ws {
         if let Some(d) = own.last() {
             return Some(*d);
         }
-        // imports, later statements win
+        // imports, later statements win; of several `pytest_plugins` assignments only the last counts
+        let last_plugins = self.files[file].items.iter().rposition(|it| matches!(it, Item::PytestPlugins { .. }));
         let mut found = None;
-        for it in &self.files[file].items {
+        for (idx, it) in self.files[file].items.iter().enumerate() {
+            if matches!(it, Item::PytestPlugins { .. }) && Some(idx) != last_plugins {
+                continue;
+            }
             match it {
                 Item::StarImport { module } => {
                     if let Some(t) = self.resolve_module(file, module) {
